@@ -53,3 +53,10 @@ check("C17",
   "For every generated (formula, flavour, chain of evaluate_new_data calls with/without unseen groups) every reachable ResponseMatrix, CommonEffectsMatrix, GroupEffectsMatrix and DesignMatrices is inspected: slices contiguous from zero in term order and covering the columns; m[name] equals the slice and unknown names raise ValueError; data-frame view, numpy view, tuple unpacking and design_matrix hold the same z3 terms; labels unique and as many as columns; equal row counts; str()/repr() succeed and contain the actual shape; the original design is re-inspected after the chain.",
   "Trusted: z3; stubs in evidence. Chains up to length 2 (quick) / 3 (thorough); new frames of 4 rows.",
   "DESIGN.md section 4 C17")
+
+check("C15",
+  "symbolic execution of the real design_matrices on z3-real responses/predictors and z3-integer counts; pointwise meaning of the response columns and independence of the predictors decided by z3",
+  "model_checking",
+  "For every generated (response form, right-hand side, flavour): numeric response equals the column as z3 terms; categorical response is one indicator column per level in sorted/declared order; y[level] (identifier or quoted) is a single column that is 1 exactly where y equals the level; prop(s, n) with z3-integer successes/trials gives (s, n), its refusal happens only on paths where some s > t (solver-checked); multi-term responses are refused; common and group matrices equal, as z3 terms, those of the same right-hand side without a response; no '~' gives response None.",
+  "Trusted: z3; stubs in evidence. Response forms, right-hand sides and flavours are enumerated.",
+  "DESIGN.md section 4 C15")
